@@ -126,6 +126,35 @@ CHECKS = {
         'array and generator sources, non-integer rates, on- and off-grid start offsets (t0 compared bit-exactly with start offset + k/fs).',
    ref='DESIGN.md section 6 C02', note=COMMON_NOTE + ' Scalar (cycled) delays in the theorems; per-trial delay lists by correspondence only; every trial occupies >= 1 sample for the termination theorem; insert() and 2-D sources outside.',
    technique='Coq proof (ghost-state invariant + fuel-free big-step semantics of the request loop) + vm_compute model outputs compared against queue.py'),
+ 'C06': dict(
+   text='Composition theorem over the proved queue (C02-C04) and extractor (C05) models: for every queue class, every timed pause/resume history, any interleaving of generation and '
+        'acquisition chunks: the played stream (overwritten per clock position, truncated at each pause) holds each kept trial\'s waveform at its notified start and silence elsewhere; replaying '
+        'added/removed notifications yields exactly the live trials; the extractor delivers exactly one epoch per kept trial, equal to waveform ++ zeros, and none for cancelled ones. '
+        'Flocq theorems over binary64 for EVERY real rate in [1, 2^40]: round((k/fs)*fs) = k, the queue-published t0 = RN(T0 + RN(k/fs)) is read back by the extractor as the same sample, '
+        'off-tie stability for off-grid prestim, pause and trial-end readings. Tied to the code by the real queue -> deque -> extract_epochs loop at six rates.',
+   ref='DESIGN.md section 6 C06', note=COMMON_NOTE + ' Real-number axioms of the Coq standard library for the Flocq part only. Hypotheses: timed pauses, prestim 0 in the composition theorem, every stimulus has >= 1 sample, poststim_fits; one known finding (untimed pause inside a waveform).',
+   technique='Coq proof (composition of proved component models + Flocq floating-point grid theorems) + vm_compute model outputs compared against the real queue/extractor loop'),
+ 'C08': dict(
+   text='Theorems over R about definitions REGENERATED from stim.py on every run: level linearity (expr(L+d) = 10^(d/20) expr(L)) and polarity (expr(-p) = -expr(p)) for tone, SAM tone, click and the '
+        'noise scale factors, incl. through a stateful linear filter of any order; whole-cycle tone RMS = get_sf(f, L) hence reads back L through get_db (C07 laws); SAM component amplitudes; click level. '
+        'PARTIAL by nature: the absolute level of noise / chirp / band-limited click / wav stimuli depends on the RNG distribution and on filter design and is judged by a numeric oracle only.',
+   ref='DESIGN.md section 6 C08', note='Trusted: Coq kernel; real-number axioms of the standard library; translate/pyexpr2coq(_ext).py with numeric self-test; laws proved over R and observed to 1e-12 / 1e-9 in binary64; '
+        'exactness of (-1.0)*x == -x in binary64 is an IEEE fact taken as trusted.',
+   technique='Coq proof over R about translator-regenerated definitions + two-run relations on every stimulus type of the implementation'),
+ 'C13': dict(
+   text='Theorem C13_all_chunkings: for every debounce length >= 1, initial state, detect mode, first index, plain or annotated input and EVERY chunking (incl. empty and length-1 chunks) of a stream whose '
+        'ended runs are all longer than the debounce length, the events reported after any number of chunks are exactly the transitions due so far, once each, in order, with latency <= m-1 samples; one '
+        'block per chunk, blocks tile the timeline; range queries = filter by sample; merging adjacent blocks = append. Model tied to pipeline.py by all chunkings of all clean streams up to length 6-9.',
+   ref='DESIGN.md section 6 C13', note=COMMON_NOTE + ' Reuses the proved C18 run-detection model. A falling event may lie up to m-1 samples past its own block\'s end (stated as C13_event_outside_block; the property does not claim containment).',
+   technique='Coq proof (window-vs-stream run characterisation, induction over chunk lists) + vm_compute correspondence against pipeline.py'),
+ 'C16': dict(
+   text='Theorems over R about scale expressions REGENERATED from util.py on every run: dB helpers exact inverses (20 log10; 20 uPa), band level = spectrum level + 10 log10 n; for every N and '
+        '0 < 2k < N a sinusoid of RMS A and phase p reads A(cos p, sin p) at bin k and exactly 0 at every other bin; DC/Nyquist doubling; the same through any cosine-sum window normalised by its mean '
+        '(hann, hamming, blackman, flattop) away from the main lobe; any averaging count; tone_conv; Parseval with DC/Nyquist counted twice; csd_to_signal o csd = id for even N. rfft = DFT sum and '
+        'the reshaping/trimming glue are tied by correspondence.',
+   ref='DESIGN.md section 6 C16', note='Trusted: Coq kernel; real-number axioms of the standard library; translate/pyexpr2coq(_ext).py with numeric self-test; np.fft.rfft modelled as the DFT sum (1e-9); identities are for detrend=None '
+        '(the default linear detrend is a preprocessing step that biases the lowest bins); one known finding (csd_to_signal loses a sample for odd N).',
+   technique='Coq proof over R (trigonometric sums, DFT orthogonality) about translator-regenerated definitions + numeric correspondence against util.py'),
 }
 
 PENDING = 'not yet built in this round (framework is being extended property by property; see DESIGN.md section 8)'
